@@ -47,7 +47,9 @@ impl RawValue {
 }
 #[verifier::external_body] pub struct Extensions { _p: u8 }
 impl Clone for Extensions { #[verifier::external_body] fn clone(&self) -> Self { unimplemented!() } }
-impl Extensions { #[verifier::external_body] pub fn new() -> Extensions { unimplemented!() } }
+// `Extensions::new()`: an empty extension map (http crate, ASSUMED)
+pub uninterp spec fn ext_fresh(e: Extensions) -> bool;
+impl Extensions { #[verifier::external_body] pub fn new() -> (r: Extensions) ensures ext_fresh(r) { unimplemented!() } }
 #[verifier::external_body] pub struct ErrorObject<'a> { _p: core::marker::PhantomData<&'a u8> }
 impl<'a> Clone for ErrorObject<'a> { #[verifier::external_body] fn clone(&self) -> Self { unimplemented!() } }
 impl<'a> PartialEq for ErrorObject<'a> { #[verifier::external_body] fn eq(&self, o: &Self) -> bool { unimplemented!() } }
